@@ -2014,6 +2014,8 @@ func wellKnownGlobal(st *State, x *ssa.Global) (Value, bool) {
 	switch x.String() {
 	case "encoding/base64.RawURLEncoding", "encoding/base64.StdEncoding", "encoding/base64.URLEncoding", "encoding/base64.RawStdEncoding":
 		return Opq{"base64 encoding"}, true
+	case "crypto/rand.Reader":
+		return Opq{"crypto/rand.Reader"}, true // only ever handed on to (stubbed) crypto functions
 	case "github.com/ethereum/go-ethereum/common.Big0":
 		return mkBig(0), true
 	case "github.com/ethereum/go-ethereum/common.Big1":
